@@ -1,14 +1,19 @@
 #!/bin/sh
-# usage: mutant.sh <patch> <prop> [<prop>...]  -- applies the patch to /repo, runs the quick checks, reverts.
+# usage: mutant.sh <patch> <prop> [<prop>...]
+# Applies the patch to a scratch worktree of /repo (never to /repo itself),
+# runs the quick checks against that tree, and removes the worktree.
+# Evidence and replays of these runs go to /tmp, not to /verif.
 patch="$(readlink -f "$1")"; shift
-cd /repo || exit 2
-git diff --quiet || { echo "/repo has uncommitted changes"; exit 2; }
-git apply "$patch" || { echo "patch does not apply"; exit 2; }
-export VERIF_EVIDENCE_DIR=/tmp/mutant-evidence VERIF_REPLAY_DIR=/tmp/mutant-replays
+wt="/tmp/mutant-wt.$$"
+git -C /repo worktree add -q --detach "$wt" HEAD || exit 2
+if ! git -C "$wt" apply "$patch"; then echo "patch does not apply"; git -C /repo worktree remove --force "$wt"; exit 2; fi
+export VERIF_REPO="$wt" VERIF_EVIDENCE_DIR=/tmp/mutant-evidence.$$ VERIF_REPLAY_DIR=/tmp/mutant-replays.$$
 for p in "$@"; do
-  /verif/check "$p" quick > /tmp/mutant.$$.out 2>&1; rc=$?
-  echo "== $(basename $patch) $p rc=$rc $(grep -c '^VIOLATION' /tmp/mutant.$$.out) violation line(s)"
+  /verif/check "$p" ${VERIF_MUTANT_TIER:-quick} > /tmp/mutant.$$.out 2>&1; rc=$?
+  echo "== $(basename "$patch") $p rc=$rc $(grep -c '^VIOLATION' /tmp/mutant.$$.out) violation line(s)"
   grep '^VIOLATION\|^INFRA' /tmp/mutant.$$.out | head -3
 done
 rm -f /tmp/mutant.$$.out
-git checkout -- . && git status --short | grep -v '^??' 
+if [ -z "$VERIF_MUTANT_KEEP" ]; then rm -rf /tmp/mutant-evidence.$$ /tmp/mutant-replays.$$; fi
+git -C /repo worktree remove --force "$wt"
+rm -f /verif/build/props._tmp_mutant_wt_$$*.test /verif/build/alt._tmp_mutant_wt_$$* /verif/build/evalfilter._tmp_mutant_wt_$$
